@@ -69,7 +69,10 @@ where
             }
         };
 
-        headers.append(header, HeaderValue::from_bytes(value).map_err(http::Error::from)?);
+        // `append` panics once the map holds more entries than `http::HeaderMap` supports.
+        headers
+            .try_append(header, HeaderValue::from_bytes(value).map_err(http::Error::from)?)
+            .map_err(http::Error::from)?;
     }
 
     Ok((status, headers))
